@@ -105,3 +105,7 @@ def register_all(reg):
     reg("C05", "netx", "model_checking", "explicit-state search of the real (A-)Max-Sum computations over a virtual FIFO network (all interleavings for small instances, canonical schedules beyond; state caching) x unique-optimum instance family",
         "On acyclic instances with a unique brute-force optimum, the real factor and variable computations of synchronous Max-Sum (round horizon) and A-Max-Sum (until quiescence; default and leafs_vars start) with damping 0 / noise 0 are explored; every maximal path must end on the unique optimum.",
         NETX_NOTE + " Instances beyond the pair (and a slice of the 3-chains) use 4 canonical schedules instead of all interleavings.", "DESIGN.md 3 C05")
+
+    reg("C09", "netx", "model_checking", "explicit-state search of the real DBA computations over a virtual FIFO network (all interleavings, start orders, initial values, tie picks; state caching)",
+        "On small CSPs (all {0,infinity} pair tables, graph colouring on chain / triangle, 2-3 colours, max_distance at or above the diameter) every reachable state up to a cycle horizon is visited; inside every finished() notification the values held by all computations must violate no constraint.",
+        NETX_NOTE + " Safety property up to a horizon of 3-6 cycles per computation.", "DESIGN.md 3 C09")
